@@ -319,7 +319,7 @@ def run_extrapolate(col):
 
 
 def run_extrapolate_source(col, cell_type):
-    """O7: tools.extrapolate evaluated from source on a distorted two-cell mesh with symbolic quadrature-point values of tensor order 0..3"""
+    """O7: tools.extrapolate evaluated from source on a distorted two-cell mesh with symbolic quadrature-point values of tensor order 0..4"""
     it = new_interp()
     F_ = Fraction
     Mesh = it.get("felupe.mesh._mesh:Mesh")
@@ -349,7 +349,8 @@ def run_extrapolate_source(col, cell_type):
         for a in range(npc):
             attached.setdefault(int(cells[c, a]), []).append((c, a))
     w = "tools/_project.py extrapolate"
-    for shape in ((), (3,), (2, 3), (2, 2, 3)):
+    # tensor orders 0 .. 4 (the elasticity tensor is a fourth-order result; extents differ so that no two axes can be confused)
+    for shape in ((), (3,), (2, 3), (2, 2, 3), (2, 3, 2, 2) if cell_type == "quad" else (2, 3, 1, 2)):
         vals = symarray("V", shape + (npc, cells.shape[0]))
 
         def nodal(idx, c, a, mean):
